@@ -411,7 +411,14 @@ func main() {
 	}
 	// 7. default functions
 	calls := callsIn(parse(root, "calculator/functions/DefaultFunctionCollection.go"), "NewDefaultFunctionCollection", "Add")
-	sb.WriteString("\nDefinition default_functions : list (list Z * list Z) := [\n")
+	sb.WriteString("\nDefinition default_functions : list (list Z * Z) := [\n")
+	calcCodes := map[string]int{"ticksFunctionCalculator": 1, "timeSpanFunctionCalculator": 2, "nowFunctionCalculator": 3, "dateFunctionCalculator": 4,
+		"dayOfWeekFunctionCalculator": 5, "minFunctionCalculator": 6, "maxFunctionCalculator": 7, "sumFunctionCalculator": 8, "ifFunctionCalculator": 9,
+		"chooseFunctionCalculator": 10, "eFunctionCalculator": 11, "piFunctionCalculator": 12, "rndFunctionCalculator": 13, "absFunctionCalculator": 14,
+		"acosFunctionCalculator": 15, "asinFunctionCalculator": 16, "atanFunctionCalculator": 17, "expFunctionCalculator": 18, "logFunctionCalculator": 19,
+		"log10FunctionCalculator": 20, "ceilFunctionCalculator": 21, "floorFunctionCalculator": 22, "roundFunctionCalculator": 23, "truncFunctionCalculator": 24,
+		"cosFunctionCalculator": 25, "sinFunctionCalculator": 26, "tanFunctionCalculator": 27, "sqrtFunctionCalculator": 28, "emptyFunctionCalculator": 29,
+		"nullFunctionCalculator": 30, "containsFunctionCalculator": 31, "arrayFunctionCalculator": 32}
 	for i, args := range calls {
 		ce, ok := args[0].(*ast.CallExpr)
 		if !ok || len(ce.Args) != 2 {
@@ -422,7 +429,11 @@ func main() {
 		if i == len(calls)-1 {
 			sep = ""
 		}
-		sb.WriteString(fmt.Sprintf("  (%s, %s)%s (* %s -> %s *)\n", coqStr(name), coqStr(exprString(ce.Args[1])), sep, name, exprString(ce.Args[1])))
+		code, ok := calcCodes[exprString(ce.Args[1])]
+		if !ok {
+			fail("default functions: unknown calculator " + exprString(ce.Args[1]))
+		}
+		sb.WriteString(fmt.Sprintf("  (%s, %d)%s (* %s -> %s *)\n", coqStr(name), code, sep, name, exprString(ce.Args[1])))
 	}
 	sb.WriteString("].\n")
 	fmt.Print(sb.String())
